@@ -399,6 +399,34 @@ func (r *HTTPRun) step(op *Op) *Violation {
 			return viol("C09", "harness", "invalid", "%v", err)
 		}
 		r.M.Batch(op.DS, op.Ents)
+	case "txnpost":
+		conv := func(s string) string {
+			if strings.HasPrefix(s, MkE) {
+				return s[len(MkE):]
+			}
+			if strings.HasPrefix(s, MkS) {
+				return "s:" + s[len(MkS):]
+			}
+			return s
+		}
+		l := []any{}
+		for _, e := range op.Ents {
+			l = append(l, mapEntity(e, conv))
+		}
+		b, _ := json.Marshal(map[string]any{"@context": map[string]any{"namespaces": map[string]any{"_": ExE, "s": ExS}}, op.DS: l})
+		code, body := r.H.Do("POST", "/transactions", nil, b)
+		r.Stats["transactions_posted"]++
+		if code != 200 {
+			return viol("C09", "fullsync-protocol", fmt.Sprintf("transaction-rejected:%d", code), "POST /transactions writing %d entities to %s was answered %d %s", len(op.Ents), op.DS, code, strings.TrimSpace(string(body)))
+		}
+		r.expire(op.DS)
+		r.M.Batch(op.DS, op.Ents)
+		if s := r.st(op.DS); s.active {
+			for _, e := range op.Ents {
+				s.seen[CanonSpec(e).ID] = true
+			}
+		}
+		r.ev("txnpost n=%d", len(op.Ents))
 	case "advance":
 		time.Sleep(time.Duration(op.N) * time.Millisecond)
 		r.Stats["clock_advances"]++
